@@ -267,5 +267,31 @@ func C04(c *core.Ctx) {
 			jobs = append(jobs, extJob{cfg, ops, labels[bi]})
 		}
 	}
+	// budget of the thorough tier (see fatJobs): the depth-3 enumeration is sampled evenly, the rest is kept
+	const budget = 60000
+	if len(jobs) > budget {
+		var rest, deep []extJob
+		for _, j := range jobs {
+			if j.label == "bfs-depth-3" {
+				deep = append(deep, j)
+			} else {
+				rest = append(rest, j)
+			}
+		}
+		room := budget - len(rest)
+		if room < 1 {
+			room = 1
+		}
+		stride := (len(deep) + room - 1) / room
+		off := int(c.Seed % int64(stride))
+		for i, j := range deep {
+			if i%stride == off {
+				rest = append(rest, j)
+			}
+		}
+		c.Extra["bfs_depth3_sampled_1_in"] = stride
+		c.Extra["bfs_depth3_generated_jobs"] = len(deep)
+		jobs = rest
+	}
 	extRunAll(c, jobs, "ExtTree_Trace", "ExtTree_Trace.cfg", c04Sig)
 }
